@@ -791,6 +791,19 @@ def stage_center(ctx):
                  lambda m: "model and implementation disagree on make_center_priors arithmetic")
 
 
+# ------------------------------------------------------------------------------------------
+# source tie: Accumulator.push as written now, translated and proved equal to the model
+
+SRC_ITEMS = [dict(file="holopy/core/io/io.py", qualname="Accumulator.push", name="push_src", rettype="R * R * R",
+                  params=[("x", "R")], state=["_n", "_running_mean", "_running_var"])]
+
+
+def stage_srctie(ctx):
+    from harness.lib import srctie
+    ok = srctie.run(ctx, "C18", "From Coq Require Import Permutation.\nFrom HV Require Import C18.Model C18.Lemmas C18.Props.\n", SRC_ITEMS)
+    ctx.count("srctie:%s" % ("ok" if ok else "broken"))
+
+
 def run(ctx):
     ctx.rule = ("pixel types float64 / float32 / uint8 / uint16 / int32 / int64; intensity units over 2^-60..2^60, 1e-12, 1e12 "
                 "(normalize inputs and rescalings, holograms for the centre finder); "
@@ -841,6 +854,7 @@ def run(ctx):
         ctx.notes.append("stage %s: %.1f s" % (tag, time.time() - t))
 
     timed("prove", ctx.prove)
+    timed("source-tie", stage_srctie, ctx)
     t = time.time()
     boot.boot()
     ctx.notes.append("stage boot: %.1f s" % (time.time() - t))
@@ -858,7 +872,10 @@ def replay(ctx, data):
     boot.boot()
     d = data["data"]
     kind = d.get("kind")
-    if kind == "center":
+    if kind == "tie":
+        ctx.prove()
+        stage_srctie(ctx)
+    elif kind == "center":
         from holopy.scattering import Sphere, calc_holo
         from holopy.core.metadata import detector_grid
         par = d["par"]
